@@ -212,6 +212,21 @@ def reviewedMutatorCalls : List (String × String × String) := [
   ("serialization", "dsContext.convert", "Resolve"),
   ("serialization", "dsContext.pcoreTypeHashToValue", "InitFromHash")]
 
+/-- exported accessors that hand out a slice / map of the receiver AS IT IS (`return dt.params`): a caller that writes into
+    the result changes the value.  Reviewed: none belongs to Array / Hash / HashEntry (their accessors copy: `AppendTo`,
+    `ToStringMap`, `AppendEntriesTo`); these eight are read by pcore itself only (no write through them: family fieldwrites
+    would list an `.elem` row) — an application writing into `Binary.Bytes()` changes that Binary, by the API's design. -/
+def reviewedAliasAccessors : List (String × String) := [
+  ("Binary.Bytes", "bytes"), ("DeferredType.Parameters", "params"), ("EnumType.Strings", "values"),
+  ("StructType.Elements", "elements"), ("StructType.HashedMembers", "hashedMembers"), ("TupleType.Types", "types"),
+  ("VariantType.Types", "types"), ("typedName.Parts", "parts")]
+
+def AliasAccessorsReviewed (accs : List (String × String)) : Prop :=
+  (accs.all fun a => reviewedAliasAccessors.contains a) = true
+
+instance (accs : List (String × String)) : Decidable (AliasAccessorsReviewed accs) := by
+  unfold AliasAccessorsReviewed; infer_instance
+
 def mutatorCallsSafeB (names : List String) (calls : List (String × String × String)) : Bool :=
   -- the two mutators of a DATA value are known by name, so that the list cannot silently lose them
   names.contains "Put" && names.contains "PutAll" && calls.all fun c => reviewedMutatorCalls.contains c
